@@ -1,6 +1,9 @@
 #!/bin/sh
-# usage: tools/mutcheck.sh <patch.diff> <property-id>...   — apply a patch to /repo, run the quick checks, revert
-P=$1; shift
-git -C /repo apply "$P" || { echo "patch does not apply"; exit 9; }
-for id in "$@"; do (cd /verif && ./check $id --tier ${TIER:-quick} 2>/dev/null | grep -E "^(VIOLATION|KNOWN|BROKEN|INCONCLUSIVE|C[0-9]+ )" | cut -c1-260); done
-git -C /repo checkout -- .
+# usage: tools/mutcheck.sh <patch.diff | seeded-id> <property-id>... [-- extra ./check args]  — apply a change to a SCRATCH worktree (never /repo), run the checks against it, revert
+P=$1; shift; [ -f "$P" ] || P=/verif/seeded/$P/patch.diff
+R=${VERIF_REPO:-/tmp/repo_mut2}; export VERIF_REPO=$R VERIF_WORK=$R.work VERIF_EVIDENCE_DIR=$R.evidence; mkdir -p $VERIF_EVIDENCE_DIR
+[ -d $R ] || git -C /repo worktree add --detach -f $R HEAD >/dev/null 2>&1
+git -C $R checkout -q -- . ; git -C $R apply "$P" || { echo "patch does not apply"; exit 9; }
+ids=""; while [ $# -gt 0 ] && [ "$1" != "--" ]; do ids="$ids $1"; shift; done; [ "$1" = "--" ] && shift
+for id in $ids; do (cd /verif && ./check $id --tier ${TIER:-quick} "$@" 2>/dev/null | grep -E "^(VIOLATION|KNOWN|BROKEN|INCONCLUSIVE|C[0-9]+ |  harness=)" | cut -c1-400); done
+git -C $R checkout -q -- .
